@@ -34,7 +34,7 @@ PATHS = ["P0", "P1", "P2"]
 
 
 def configure(cfg, r, tier):
-    cfg["profile"] = r.choice(["ints", "ints", "strs"])
+    cfg["profile"] = r.choice(["ints", "ints", "strs", "ints", "strs", "mixed"])
     cfg["initial"] = [r.choice(["H", "H", "H", "DH", "SC"]) for _ in range(r.choice([1, 2]))]
     cfg["faults"] = False
     cfg["json_attrs"] = True
@@ -103,14 +103,20 @@ def admissible(fmt, m):
     """is the network inside the stated domain of format fmt?"""
     nodes, edges = list(m.nodes), list(m.edges)
     nt, et = label_type(nodes + [x for e in m.edges for x in m.all_members(e)]), label_type(edges)
+    attrs_ok = all(json_safe(a) for a in m.nodes.values()) and all(json_safe(a) for a in m.eattr.values()) \
+        and json_safe(m.net)
+    if fmt == "hif":
+        # HIF carries any JSON scalar as a label: ints, floats and strings may be mixed
+        labels = nodes + edges + [x for e in m.edges for x in m.all_members(e)]
+        if any(isinstance(x, bool) or not isinstance(x, (int, float, str)) for x in labels):
+            return False
+        if any(isinstance(x, float) and not math.isfinite(x) for x in labels):
+            return False
+        return attrs_ok
     if nt is None or et is None:
         return False
     if any(isinstance(x, bool) for x in nodes + edges):
         return False
-    attrs_ok = all(json_safe(a) for a in m.nodes.values()) and all(json_safe(a) for a in m.eattr.values()) \
-        and json_safe(m.net)
-    if fmt == "hif":
-        return attrs_ok
     if fmt == "json":
         return m.kind in ("H", "SC") and attrs_ok
     if m.kind != "H":
@@ -134,8 +140,19 @@ def caster(t):
 def pi(fmt, m, params):
     """what a fault-free read of an acknowledged write must return: (model, exp)"""
     if fmt == "hif":
-        out = m.copy()
-        out.frozen = False
+        nc = (lambda x: str(x)) if params.get("nodetype") == "str" else (lambda x: x)
+        ec = (lambda x: str(x)) if params.get("edgetype") == "str" else (lambda x: x)
+        out = type(m)()
+        for n in m.nodes:
+            out.nodes[nc(n)] = deepcopy(m.nodes[n])
+        for e in m.edges:
+            if m.kind == "DH":
+                t, h = m.edges[e]
+                out.edges[ec(e)] = ({nc(n) for n in t}, {nc(n) for n in h})
+            else:
+                out.edges[ec(e)] = out._copy_members({nc(n) for n in m.edges[e]})
+            out.eattr[ec(e)] = deepcopy(m.eattr[e])
+        out.net = deepcopy(m.net)
         return out, M.Exp(nodes_order_free=True, edges_order_free=True)
     nc = (lambda x: int(str(x))) if params.get("nodetype") == "int" else (lambda x: str(x))
     ec = (lambda x: int(str(x))) if params.get("edgetype") == "int" else (lambda x: str(x))
@@ -233,6 +250,15 @@ def next_record(sim):
         params = {}
         if st and st["fmt"] == fmt and st.get("ack"):
             params = dict(st["read_params"])
+            if fmt == "hif" and g.r.random() < 0.4:
+                # read back with string casts (only when the casts are injective)
+                src = st.get("src_model")
+                if src is not None:
+                    labs = list(src.nodes) + [x for e in src.edges for x in src.all_members(e)]
+                    if len({str(x) for x in set(labs)}) == len(set(labs)) and g.r.random() < 0.8:
+                        params["nodetype"] = "str"
+                    if len({str(x) for x in src.edges}) == len(src.edges) and g.r.random() < 0.8:
+                        params["edgetype"] = "str"
             if fmt == "bipartite" and g.r.random() < 0.25:
                 # dual=True reads the first column as edges: the casts swap with the columns
                 params["dual"] = True
@@ -331,7 +357,8 @@ def do_write(sim, rec):
         except OSError:
             multibyte = False
         sim.store[rec["path"]] = {"fmt": fmt, "ack": True, "expect": expect, "exp": exp,
-                                  "read_params": read_params, "src_kind": act.kind, "multibyte": multibyte}
+                                  "read_params": read_params, "src_kind": act.kind, "multibyte": multibyte,
+                                  "src_model": m.copy() if fmt == "hif" else None}
         if old_size is not None and new_size is not None and new_size < old_size:
             w.probes["write_overwrites_longer_file"] += 1
         if old and old.get("fmt") != fmt:
@@ -358,7 +385,9 @@ def do_read(sim, rec):
     et = int if p.get("edgetype") == "int" else None
     delim = p.get("delimiter")
     if fmt == "hif":
-        fn = lambda: xgi.read_hif(path)
+        hn = str if p.get("nodetype") == "str" else None
+        he = str if p.get("edgetype") == "str" else None
+        fn = lambda: xgi.read_hif(path, nodetype=hn, edgetype=he)
     elif fmt == "json":
         fn = lambda: xgi.read_json(path, nodetype=nt, edgetype=et)
     elif fmt == "edgelist":
@@ -390,6 +419,8 @@ def do_read(sim, rec):
     if p.get("dual"):
         pp["nodetype"], pp["edgetype"] = pp.get("edgetype"), pp.get("nodetype")
     matches = st is not None and st.get("ack") and st["fmt"] == fmt and dict(st["read_params"]) == pp
+    if st is not None and st.get("ack") and fmt == "hif" and st["fmt"] == "hif" and st.get("src_model") is not None:
+        matches = True
     if not matches:
         # indeterminate path / other format / other parameters: no constraint on the outcome
         if exc is None and new is not None and not isinstance(new, dict):
@@ -406,6 +437,9 @@ def do_read(sim, rec):
                f"read_{fmt} of an acknowledged write raised {type(exc).__name__}: {exc}")
         return None
     expect, exp = st["expect"], st["exp"]
+    if fmt == "hif" and (p.get("nodetype") or p.get("edgetype")):
+        expect, exp = pi("hif", st["src_model"], p)
+        w.probes["hif_read_with_string_casts"] += 1
     if p.get("dual"):
         expect, exp = dual_of(expect)
     want_kind = st["src_kind"] if fmt == "hif" else "H"
